@@ -198,7 +198,11 @@ impl Engine for CrashEngine {
         // window-edge family (own tape): see run_workload
         let mut we = Tape::fresh(mix(seed, 0x3ED6E));
         if !ttl_focus && we.chance(1, 6) {
-            knobs.insert("filler_blocks".into(), 236 + we.below(18) as i64);
+            // mostly just below the scan window (256 blocks); sometimes well above it, which also
+            // makes the filler's retirement a multi-piece marker write (256 blocks per piece)
+            let big = we.chance(1, 3);
+            knobs.insert("filler_blocks".into(), if big { 270 + we.below(300) as i64 } else { 236 + we.below(18) as i64 });
+            knobs.insert("filler_deleted".into(), (big || we.chance(1, 3)) as i64);
         }
         // the workload ends with a clean drop of the store, which acknowledges everything that
         // completed before it (C02: "or the store has been dropped cleanly on a healthy device");
@@ -206,7 +210,10 @@ impl Engine for CrashEngine {
         knobs.insert("close_ack".into(), Tape::fresh(mix(seed, 0xC105E)).chance(1, 3) as i64);
         // let time pass between the crash and the restart (so that fresh TTLs have expired)
         knobs.insert("downtime_ms".into(), if ttl_focus { *c.pick(&[0i64, 1_500, 2_500, 6_000, 4_000_000]) } else if ttl { *c.pick(&[0i64, 0, 2_500]) } else { 0 });
-        let store = if knobs.contains_key("filler_blocks") { StoreCfg { data_blocks: 256 + store.data_blocks, ..store } } else { store };
+        let store = match knobs.get("filler_blocks") {
+            Some(f) => StoreCfg { data_blocks: (*f as u64).max(256) + 8 + store.data_blocks, ..store },
+            None => store,
+        };
         Scenario {
             engine: "crash".into(),
             property: property.into(),
@@ -522,6 +529,21 @@ fn run_workload(sim: &Arc<Sim>, sc: &Scenario, crash_at_call: Option<u64>, repor
         return None;
     }
     report.ops += sc.op_count() as u64;
+    if filler_blocks > 0 && sc.knob("filler_deleted", 0) == 1 && !disk.is_dead() {
+        // the large record goes away again: its retirement is written in pieces, and the crash
+        // points of the later attempts fall between and inside them
+        let key = b"zz:filler".to_vec();
+        let store = env.st();
+        let deleted = store.delete(&key);
+        let ret = sim.next_event();
+        if deleted.is_ok() && !disk.is_dead() {
+            rec.hist.lock().unwrap().entry(key).or_default().push(Trans { state: None, ret });
+            let invoke = sim.next_event();
+            if store.flush().is_ok() && !disk.is_dead() {
+                rec.acks.lock().unwrap().push((invoke, sim.next_event()));
+            }
+        }
+    }
     if sc.knob("close_ack", 0) == 1 && !disk.is_dead() {
         // a clean close may legitimately lose what the device has no room for
         let fits = !checks::capacity_risk(&env);
